@@ -34,7 +34,7 @@ pub struct Scn {
 }
 pub struct C01;
 
-pub const N_CFG: usize = 8;
+pub const N_CFG: usize = 10;
 const N_SHAPES: usize = 24;
 const QNAMES: &[&str] = &[
     "www.example.", "example.", "WwW.ExAmPlE.", "nosuch.example.", "x.wild.example.", "alias.example.", "chain1.example.", "deep.sub.example.", "big.example.",
@@ -307,10 +307,118 @@ fn badsoa_zone() -> Arc<quandary::db::HashMapTreeZone> {
     z.finish()
 }
 
+/// A zone drawn from a seed: every owner the request corpus asks about (and some below and beside
+/// them, and wildcards) gets 0-3 RRsets of assorted types whose RDATA is valid, cut short, empty,
+/// random octets, a compression pointer, an over-long name or label - everything the public zone
+/// API accepts. The apex may lack SOA or NS or have them malformed.
+fn random_zone(apex: &str, owners: &[&str], seed: u64) -> Arc<quandary::db::HashMapTreeZone> {
+    use quandary::class::Class;
+    use quandary::db::zone::GluePolicy;
+    use quandary::rr::{Rdata, Ttl, Type};
+    let mut r = SplitMix(seed ^ 0xC01_2A2A);
+    let mut zone = quandary::db::HashMapTreeZone::new(qz::qname(apex), Class::IN, if r.below(2) == 0 { GluePolicy::Narrow } else { GluePolicy::Wide });
+    let types: &[u16] = &[wire::T_A, wire::T_AAAA, wire::T_NS, wire::T_CNAME, wire::T_MX, wire::T_SOA, wire::T_TXT, 33, 12, 13, 14, 11, 7, 99, 65280];
+    let names: Vec<String> = owners.iter().map(|s| s.to_string()).chain(["elsewhere.".to_string(), ".".to_string(), "test.".to_string(), format!("ns.{apex}"), format!("a.b.c.{apex}")]).collect();
+    let mut name_rdata = |r: &mut SplitMix| -> Vec<u8> {
+        match r.below(8) {
+            0 => vec![0xc0, 0x0c],
+            1 => vec![0xc0],
+            2 => {
+                let mut v = vec![64u8];
+                v.extend(vec![b'x'; 64]);
+                v.push(0);
+                v
+            }
+            3 => {
+                // 255-octet name
+                let mut v = vec![];
+                for _ in 0..3 {
+                    v.push(63);
+                    v.extend(vec![b'l'; 63]);
+                }
+                v.push(61);
+                v.extend(vec![b'l'; 61]);
+                v.push(0);
+                v
+            }
+            4 => vec![3, b'a', b'b'],
+            _ => wire::name_wire(&names[r.below(names.len() as u64) as usize]),
+        }
+    };
+    let mut add = |zone: &mut quandary::db::HashMapTreeZone, owner: &str, t: u16, rd: &[u8]| {
+        if let (Ok(o), Ok(rd)) = (owner.parse::<Box<quandary::name::Name>>(), <&Rdata>::try_from(rd)) {
+            let _ = zone.add(&o, Type::from(t), Class::IN, Ttl::from(60), rd);
+        }
+    };
+    let mut all_owners: Vec<String> = owners.iter().map(|s| s.to_string()).collect();
+    all_owners.push(apex.to_string());
+    all_owners.push(format!("*.{apex}"));
+    all_owners.push(format!("*.wild.{apex}"));
+    all_owners.push(format!("below.www.{apex}"));
+    for owner in &all_owners {
+        for _ in 0..r.below(4) {
+            let t = types[r.below(types.len() as u64) as usize];
+            for _ in 0..1 + r.below(3) {
+                let mut rd: Vec<u8> = match t {
+                    wire::T_A => vec![10, 0, 0, r.next() as u8],
+                    wire::T_AAAA => (0..16).map(|_| r.next() as u8).collect(),
+                    wire::T_NS | wire::T_CNAME | 12 | 7 => name_rdata(&mut r),
+                    wire::T_MX => {
+                        let mut v = vec![0, r.next() as u8];
+                        v.extend(name_rdata(&mut r));
+                        v
+                    }
+                    33 => {
+                        let mut v = vec![0, 1, 0, 2, 0, 53];
+                        v.extend(name_rdata(&mut r));
+                        v
+                    }
+                    wire::T_SOA | 14 => {
+                        let mut v = name_rdata(&mut r);
+                        v.extend(name_rdata(&mut r));
+                        if t == wire::T_SOA {
+                            v.extend((0..20).map(|_| r.next() as u8));
+                        }
+                        v
+                    }
+                    wire::T_TXT | 13 => wire::txt_rdata(&vec![b't'; r.below(80) as usize]),
+                    _ => (0..r.below(40)).map(|_| r.next() as u8).collect(),
+                };
+                match r.below(10) {
+                    0 => rd.truncate(r.below(rd.len() as u64 + 1) as usize),
+                    1 => rd.clear(),
+                    2 => rd = (0..r.below(30)).map(|_| r.next() as u8).collect(),
+                    3 => rd.push(r.next() as u8),
+                    _ => {}
+                }
+                add(&mut zone, owner, t, &rd);
+            }
+        }
+    }
+    // usually a proper apex on top (an RRset may then hold good and bad members side by side)
+    if r.below(4) != 0 {
+        add(&mut zone, apex, wire::T_SOA, &wire::soa_rdata("ns.elsewhere.", "h.elsewhere.", 1));
+    }
+    if r.below(4) != 0 {
+        add(&mut zone, apex, wire::T_NS, &wire::name_wire(&format!("ns.{apex}")));
+    }
+    Arc::new(zone)
+}
+
 pub fn make_server(cfg: usize) -> Server<Cat> {
+    make_server_for(cfg, 0)
+}
+/// `msg` seeds the zones of the random-zone configurations (8, 9).
+pub fn make_server_for(cfg: usize, msg: usize) -> Server<Cat> {
     let mut c = Cat::new();
     match cfg {
         0 => {}
+        8 | 9 => {
+            let ex: Vec<&str> = QNAMES.iter().copied().filter(|q| q.ends_with(".example.") && !q.chars().any(|ch| ch.is_ascii_uppercase())).collect();
+            let gl: Vec<&str> = QNAMES.iter().copied().filter(|q| q.ends_with(".glue.test.")).collect();
+            c.insert(Entry::Loaded(random_zone("example.", &ex, (msg as u64) << 4 | cfg as u64), ()));
+            c.insert(Entry::Loaded(random_zone("glue.test.", &gl, (msg as u64) << 4 | cfg as u64 | 0x100_0000), ()));
+        }
         3 | 4 => {
             c.insert(Entry::Loaded(corrupt_zone(), ()));
             c.insert(Entry::Loaded(nosoa_zone(), ()));
@@ -325,10 +433,10 @@ pub fn make_server(cfg: usize) -> Server<Cat> {
         }
     }
     let mut s = Server::new(Arc::new(c));
-    if matches!(cfg, 2 | 4 | 5 | 7) {
+    if matches!(cfg, 2 | 4 | 5 | 7 | 9) {
         s.set_tsig_keys(keys());
     }
-    if matches!(cfg, 5 | 6) {
+    if matches!(cfg, 5 | 6 | 9) {
         let mut p = RrlParams::new(2, 2, 2, 1).unwrap();
         p.set_slip(if cfg == 5 { 1 } else { 2 });
         p.set_size(3).unwrap();
@@ -402,7 +510,7 @@ impl Prop for C01 {
         format!("{file}|{masked}")
     }
     fn rule() -> String {
-        format!("one execution = one (request shape, server configuration) pair: {} shapes quick / 960 thorough (plain, EDNS with options and odd versions, big RRsets with swept payload sizes, TSIG-signed with known/unknown keys, truncated MACs and maximal 255-octet key/algorithm names, extra records in every section, compressed and mixed-case names, opcodes 0-15, QTYPE ANY/AXFR/IXFR/meta, QCLASS ANY/CH, NOTIFY/UPDATE-shaped, two questions, misplaced OPT/TSIG, header only, question-less requests with OPT (odd versions) or TSIG) x {} configurations (empty catalog; loaded/NotYetLoaded/FailedToLoad entries; zones with malformed stored RDATA, missing or malformed SOA; key sets; RRL slip 1/2; payload 512/1232/65535); per pair, exhaustively: truncation to every length, at every offset substitution by 10 values, each header count set to 0/+1/0xffff, every RR's RDLENGTH set to 0..80, the advertised EDNS payload size set to every value 0..1400 (+ large ones), junk of 1/2/11/300 octets appended, tail duplicated, both transports; then seeded random pairs of those faults. Every pair is non-trivial and distinct by construction", 192, N_CFG)
+        format!("one execution = one (request shape, server configuration) pair: {} shapes quick / 960 thorough (plain, EDNS with options and odd versions, big RRsets with swept payload sizes, TSIG-signed with known/unknown keys, truncated MACs and maximal 255-octet key/algorithm names, extra records in every section, compressed and mixed-case names, opcodes 0-15, QTYPE ANY/AXFR/IXFR/meta, QCLASS ANY/CH, NOTIFY/UPDATE-shaped, two questions, misplaced OPT/TSIG, header only, question-less requests with OPT (odd versions) or TSIG) x {} configurations (empty catalog; loaded/NotYetLoaded/FailedToLoad entries; zones with malformed stored RDATA, missing or malformed SOA; two configurations whose zones are drawn from a seed per request shape: every owner the corpus asks about holds 0-3 RRsets of assorted types with valid, cut, empty, random, pointer-bearing or over-long RDATA; key sets; RRL slip 1/2; payload 512/1232/65535); per pair, exhaustively: truncation to every length, at every offset substitution by 10 values, each header count set to 0/+1/0xffff, every RR's RDLENGTH set to 0..80, the advertised EDNS payload size set to every value 0..1400 (+ large ones), junk of 1/2/11/300 octets appended, tail duplicated, both transports; then seeded random pairs of those faults. Every pair is non-trivial and distinct by construction", 192, N_CFG)
     }
     fn assumptions() -> Vec<String> {
         vec![
@@ -496,7 +604,7 @@ impl Harness {
                     crate::util::viol_replace(&v.class, v.detail);
                 }
                 // a poisoned bucket must not turn one finding into a cascade
-                self.server = make_server(self.cfg);
+                self.server = make_server_for(self.cfg, self.msg);
             }
         }
     }
@@ -537,7 +645,7 @@ fn apply_fault(base: &[u8], r: &mut SplitMix) -> Vec<u8> {
 
 fn run(scn: &Scn) {
     simrt::start(world_cfg(13, FaultCfg::none()));
-    let mut h = Harness { msg: scn.msg, cfg: scn.cfg, server: make_server(scn.cfg), buf: vec![0u8; 65535], sites: vec![], seen: std::collections::HashSet::new(), unlisted_recorded: false };
+    let mut h = Harness { msg: scn.msg, cfg: scn.cfg, server: make_server_for(scn.cfg, scn.msg), buf: vec![0u8; 65535], sites: vec![], seen: std::collections::HashSet::new(), unlisted_recorded: false };
     if let Some((hex, tcp)) = &scn.only {
         h.call(&crate::util::unhex(hex), *tcp, "replay of one input");
         simrt::finish();
